@@ -8,6 +8,16 @@ NOTE_COMMON = ("Trusted: z3 5.1 (cvc5 cross-check where noted), CPython 3.12 / N
                "exact-real arithmetic standing for IEEE-754 unless the check says Float64.")
 
 CHECKS = {
+ 'C03': dict(
+   text="Bounded symbolic proof of the source: the four smoother kernels run on z3 Real terms with core.solve replaced by a "
+        "recording stub (fresh unknowns x, contract A_loc x = rhs). For every relaxed block z3 decides that A_loc x - rhs is "
+        "identically the C02 reference operator's residual on the block's edges of the updated field (all widths, model, "
+        "field, source, x). core.solve is proved exact per n (1..26 thorough) by cut-and-invert: in-place updates are inverted "
+        "so that A x = b is a polynomial identity in the final variables. Plus: A_loc independent of field/source, rhs "
+        "affine, boundary never written, every interior edge relaxed, smoothing() dispatch on two-cell grids.",
+   note=NOTE_COMMON+" Fixed-point / last-block-exact clauses are derived mathematically from (local system == operator rows for all x) + (solve exact) + non-singularity. Pivots assumed non-zero (code's documented precondition).",
+   technique="symbolic execution of the real kernels on z3 terms with a recording stub for the inner solver + cut-and-invert encoding of the LDL^T band solver; SMT validity of polynomial identities",
+   ref="DESIGN.md §6 C03"),
  'C02': dict(
    text="Bounded symbolic proof of the source: core.amat_x (py_func semantics), VolumeModel, solver.residual and the "
         "Krylov matvec are executed on z3 Real terms with ALL widths, model entries and field entries symbolic; for every "
